@@ -1,6 +1,7 @@
 import Driver.OpsRw
 import Bec2Verif.Model.Der
 import Bec2Verif.Model.PointCodec
+import Bec2Verif.Model.KeyDer
 import Bec2Verif.Gen.Curves
 open Bec2Verif Driver Der
 namespace Driver
@@ -107,7 +108,26 @@ def opSpkiParse : List String → String
     | none => "bad-op"
   | _ => "bad-op"
 
+def opKeyToDer : List String → String
+  | [f, o, pr, pu] =>
+    match (o.splitOn ",").mapM String.toNat?, parseHex pr, parseHex pu with
+    | some oid, some priv, some pub =>
+      if f == "ssleay" then "ok " ++ toHex (KeyDer.privToDer .ssleay oid priv pub)
+      else if f == "pkcs8" then "ok " ++ toHex (KeyDer.privToDer .pkcs8 oid priv pub)
+      else "bad-op"
+    | _, _, _ => "bad-op"
+  | _ => "bad-op"
+
+def opKeyFromDer : List String → String
+  | [d] => match parseHex d with
+    | some data => (match KeyDer.privFromDer data with
+      | .ok (c, secexp) => "ok " ++ c.name ++ " " ++ toString secexp
+      | .error e => "err " ++ e.name)
+    | none => "bad-op"
+  | _ => "bad-op"
+
 def codecOps : List (String × (List String → String)) :=
-  [("pt.enc", opPtEnc), ("pt.dec", opPtDec), ("nt.sqrt", opSqrt), ("spki", opSpki), ("spki.parse", opSpkiParse)]
+  [("pt.enc", opPtEnc), ("pt.dec", opPtDec), ("nt.sqrt", opSqrt), ("spki", opSpki), ("spki.parse", opSpkiParse),
+   ("key.toder", opKeyToDer), ("key.fromder", opKeyFromDer)]
 
 end Driver
